@@ -84,6 +84,7 @@ fn main() {
         "inflight" => run_engine(engines::inflight::InFlightEngine::new(), mode, rest),
         "window" => run_engine(engines::window::WindowEngine::new(), mode, rest),
         "selection" => run_engine(engines::selection::SelectionEngine::new(), mode, rest),
+        "stallguard" => run_engine(engines::stallguard::StallGuardEngine::new(), mode, rest),
         _ => {
             eprintln!("unknown engine {engine}");
             std::process::exit(2)
